@@ -672,10 +672,12 @@ def register(cat):
             subs[0, c.g.randrange(2)] = -1
         elif kind == "at_end":
             # the first index that no longer exists (row count / column count itself)
-            if c.g.random() < 0.5:
+            if c.g.random() < 0.4:
                 subs[1, 0] = rows
             else:
-                subs[1, 1] = cols
+                # (in the first or in the last row: a column beyond the end of an earlier row is still a position
+                # inside the matrix when rows are laid out one after the other)
+                subs[c.g.choice([0, 0, 1]), 1] = cols + c.g.choice([0, 0, 1])
         else:
             vals = vals[:1]
         return {"operands": [c.fresh(subs), c.fresh(vals)], "rdims": rd, "cdims": cd, "tshape": shape}
